@@ -35,7 +35,7 @@ type c06Case struct {
 	ListCut int         `json:"listcut"` // verify against list[:N-ListCut]
 }
 
-var c06Kinds = []string{"seq+1", "nonce+1", "ts+1", "emitter-flip", "chain+1", "cl+1", "bodyflip", "swap", "dup", "reindex", "outsider", "recid", "zero-r", "zero-s", "sigflip", "index-eq-len", "index-255", "unsorted-rotate", "recid-alias", "recid-alias"}
+var c06Kinds = []string{"seq+1", "nonce+1", "ts+1", "emitter-flip", "chain+1", "cl+1", "bodyflip", "swap", "dup", "reindex", "outsider", "recid", "zero-r", "zero-s", "sigflip", "index-eq-len", "index-255", "unsorted-rotate", "recid-alias", "recid-alias", "signed-by-position"}
 
 func genC06(t *rapid.T) c06Case {
 	c := c06Case{}
@@ -163,6 +163,14 @@ func runC06(c c06Case) (*vh.Violation, vh.Outcome) {
 			if len(ws) >= 1 {
 				i := a % len(ws)
 				ws[i].sig[64] += []byte{27, 27, 27, 35, 37, 2, 4, 29}[b%8]
+			}
+		case "signed-by-position": // signed by the guardian whose index equals the signature's position in the list, not its claimed index
+			for k := 0; k < len(ws); k++ {
+				i := (a + k) % len(ws)
+				if int(ws[i].idx) != i && i < len(c.KeyOf) {
+					copy(ws[i].sig[:], vh.SignDigest(c.KeyOf[i], digest[:]))
+					break
+				}
 			}
 		case "zero-r":
 			if len(ws) >= 1 {
